@@ -135,7 +135,15 @@ type History struct {
 	Extra   any    `json:"extra,omitempty"`
 }
 
-var prefixBytes = []byte{'p', 0xff, 0xff}
+// the namespace prefix is handed to NewPrefixDB as a slice with spare capacity (as one built by append would be): the
+// view must not write into the caller's backing array
+var prefixBytes = withSpare([]byte{'p', 0xff, 0xff}, 16)
+
+func withSpare(b []byte, n int) []byte {
+	out := make([]byte, len(b), len(b)+n)
+	copy(out, b)
+	return out
+}
 
 func NewWorld(prop, backend string, cfg Cfg, obs Observers) (*World, error) {
 	w := &World{Prop: prop, Backend: backend, Cfg: cfg, Obs: obs, Vers: map[int64]*VerState{}, WKV: map[string][]byte{},
